@@ -135,7 +135,11 @@ PREDICATES = {
     'isG': lambda v: isinstance(v, lattice.G),
     'isA': lambda v: isinstance(v, lattice.A),
     'any': lambda v: type(v).__module__ == 'vf.lattice',
+    # value dependent: accepts only some instances of a class
+    'bigU': lambda v: isinstance(v, lattice.U) and v.n >= 10,
 }
+
+INSTANCES = {'U-small': lambda: lattice.U(1), 'U-big': lambda: lattice.U(20)}
 
 
 def op_table(classes, print_classes, query_classes, preds):
@@ -164,17 +168,17 @@ class Model:
         self.any = set()        # classes with a registration of either kind
         self.preds = []
 
-    def dispatch(self, cls):
+    def dispatch(self, cls, inst=None):
         for k in cls.__mro__:
             if k is object:
                 break
             if k.__name__ in self.latest:
                 return self.latest[k.__name__][0]
-        inst_probe = cls()
+        inst_probe = cls() if inst is None else inst
         for pname, tag in self.preds:
             if PREDICATES[pname](inst_probe):
                 return tag
-        return 'REPR_' + cls.__name__
+        return repr(inst_probe)
 
     def registered(self, cls, supers, deferred):
         """(must_be_true, must_be_false): with check_deferred=False a class
@@ -269,6 +273,13 @@ class HistoryCase(base.CaseBase):
                         PP.register_pretty(predicate=PREDICATES[op[1]])(fn)
                         model.preds.append((op[1], tag))
                         trace.append((op, tag))
+                    elif kind == 'print-inst':
+                        inst = INSTANCES[op[1]]()
+                        got = PKG.pformat(inst)
+                        want = model.dispatch(type(inst), inst)
+                        trace.append((op, got, want))
+                        if got != want:
+                            return self.fail(self.classify(hist, 'C15:wrong-printer-used'), describe)
                     elif kind == 'print':
                         cls = lattice.BY_NAME[op[1]]
                         got = PKG.pformat(cls())
@@ -285,6 +296,19 @@ class HistoryCase(base.CaseBase):
                         trace.append((op, got, must_true, must_false))
                         if (must_true and got is not True) or (must_false and got is not False):
                             return self.fail('C15:is_registered-inconsistent', describe)
+                for iname in sorted(INSTANCES):
+                    inst = INSTANCES[iname]()
+                    got = PKG.pformat(inst)
+                    want = model.dispatch(type(inst), inst)
+                    trace.append((('final-print-inst', iname), got, want))
+                    if got != want:
+                        return self.fail(self.classify(hist, 'C15:wrong-printer-used'), describe)
+                both = [INSTANCES[i]() for i in sorted(INSTANCES)]
+                got = PKG.pformat(both)
+                want = '[' + ', '.join(model.dispatch(type(x), x) for x in both) + ']'
+                trace.append((('final-print-list', 'instances'), got, want))
+                if got != want:
+                    return self.fail(self.classify(hist, 'C15:wrong-printer-used'), describe)
                 for name in self.final:
                     cls = lattice.BY_NAME[name]
                     got = PKG.pformat(cls())
@@ -350,6 +374,9 @@ def replay_case(task):
 
 FULL_OPS = op_table(['G', 'P', 'C', 'A', 'M'], ['C', 'M', 'P'], ['C', 'M', 'G'], ['isG', 'any'])
 REG_OPS = op_table(['G', 'P', 'C', 'A', 'B', 'M'], ['C', 'M', 'G'], [], ['isG', 'isA', 'any'])
+# value-dependent predicates and instance prints
+PRED_OPS = [('reg-pred', 'bigU'), ('reg-pred', 'any'), ('reg-class', 'U'), ('reg-name', 'U'),
+            ('print-inst', 'U-small'), ('print-inst', 'U-big'), ('print', 'U'), ('reg-pred', 'isG')]
 
 
 def cases(tier, seed):
@@ -367,6 +394,10 @@ def cases(tier, seed):
         out.append({'name': 'k3:%s:first=%s' % ('reg' if tier == 'quick' else 'full', '-'.join(map(str, ops3[f]))),
                     'family': 'history', 'params': {'k': 3, 'ops': ops3, 'first': f},
                     'budget': 150.0 if tier == 'quick' else 1500.0, 'path_timeout': 60.0})
+    for f in range(len(PRED_OPS)):
+        out.append({'name': 'k3:pred:first=%s' % '-'.join(map(str, PRED_OPS[f])), 'family': 'history',
+                    'params': {'k': 3, 'ops': PRED_OPS, 'first': f, 'final': ['U', 'G']},
+                    'budget': 120.0 if tier == 'quick' else 600.0, 'path_timeout': 60.0})
     if tier == 'thorough':
         small = op_table(['G', 'P', 'A'], ['C', 'M'], [], ['isG'])
         for f in range(len(small)):
